@@ -346,7 +346,9 @@ package node
 //@   requires [mailbox] mailboxWF(p)
 //@   protocol procState at p
 //@   requires [holds_token] p != nil && owner(p) == me && fin(p) == 0
+//@   assume [tables] unregWF(p.node, p)
 //@   loop 1 invariant [still_owner] owner(p) == me && fin(p) == 0
+//@   loop 1 invariant [tables_kept] unregWF(p.node, p)
 //@   at call ProcessRun assert [exclusive] owner(p) == me && fin(p) == 0
 //@   at call unregisterProcess assert [finaliser_only] fin(p) == me
 //@   at call ProcessTerminate assert [finaliser_only_after_last_callback] fin(p) == me && (owner(p) == 0 || owner(p) == me)
@@ -368,6 +370,7 @@ package node
 //@   props C01 C05
 //@   protocol procState at p
 //@   requires [holds_token] p != nil && owner(p) == me && fin(p) == 0
+//@   assume [tables] unregWF(p.node, p)
 //@   at call unregisterProcess assert [finaliser_only] fin(p) == me
 //@   at call ProcessTerminate assert [finaliser_only_after_last_callback] fin(p) == me && (owner(p) == 0 || owner(p) == me)
 //@   at atomic 1 ghost fin = (result != 16 && fin(p) == 0 ? me : fin(p))
@@ -379,6 +382,7 @@ package node
 //@   modifies killAsked(pid)
 //@   ensures_ghost killAsked(pid) == old(killAsked(pid)) + 1
 //@   requires [tables] processesWF(n)
+//@   assume [tables2] forall k any :: smHas(n.processes, k) ==> unregWF(n, smVal(n.processes, k).(*process))
 //@   at call unregisterProcess assert [finaliser_only] fin(p) == me && owner(p) == 0
 //@   at atomic 1 ghost zs = (result == 2 ? me : zs(p))
 //@   at atomic 3 ghost fin = (result != 16 && fin(p) == 0 ? me : fin(p))
@@ -670,8 +674,8 @@ package node
 // new pids; the process table stays well-formed (A-SPAWN).
 //@ func (n *node) spawn
 //@   trusted
-//@   modifies spawnSeq(), smHas, smVal
-//@   ensures spawnSeq() == old(spawnSeq()) + 1 && processesWF(n)
+//@   modifies spawnSeq(), smHas(n.processes), smVal(n.processes), smHas(n.names), smVal(n.names)
+//@   ensures spawnSeq() == old(spawnSeq()) + 1 && tablesWF(n)
 
 //@ func (time.Time).Unix
 //@   trusted
@@ -684,14 +688,17 @@ package node
 //@ func (a *application) start
 //@   props C17
 //@   mode int
-//@   requires [wired] a.node != nil && a.node.log != nil && a.behavior != nil && processesWF(a.node)
-//@   loop 4 invariant [idx] -1 <= rangeindex && rangeindex < len(a.spec.Group) && processesWF(a.node) && a.state == 2
+//@   modifies a.state, a.reason, a.mode, a.stopped, a.parent, a.started, spawnSeq(), appStartCb, smHas(a.node.processes), smVal(a.node.processes), smHas(a.node.names), smVal(a.node.names), killAsked, appStartAsked(a), mapof(a.group.m), a.group
+//@   ensures_ghost appStartAsked(a) == old(appStartAsked(a)) + 1
+//@   ensures [tables_kept] tablesWF(a.node)
+//@   requires [wired] a.node != nil && a.node.log != nil && a.behavior != nil && tablesWF(a.node)
+//@   loop 4 invariant [idx] -1 <= rangeindex && rangeindex < len(a.spec.Group) && tablesWF(a.node) && a.state == 2
 //@   loop 4 invariant [one_spawn_per_item_so_far] spawnSeq() == old(spawnSeq()) + rangeindex + 1
 //@   loop 4 invariant [no_callback_yet] appStartCb(a.behavior) == old(appStartCb(a.behavior))
 //@   at call spawn assert [members_in_spec_order] spawnSeq() - old(spawnSeq()) >= 0 && spawnSeq() - old(spawnSeq()) < len(a.spec.Group) && factory == a.spec.Group[spawnSeq() - old(spawnSeq())].Factory && options.Register == a.spec.Group[spawnSeq() - old(spawnSeq())].Name && options.Application == a.spec.Name
 //@   at call spawn assert [new_life_is_set_up_before_members_run] a.mode == caller_mode && a.reason == nil && a.stopped != nil && fresh(a.stopped)
 //@   at range 1 invariant [kill_seen] forall k gen.PID :: killAsked(k) == old(killAsked(k)) + (rseen(1, k) ? 1 : 0)
-//@   at range 1 invariant [tables] processesWF(a.node)
+//@   at range 1 invariant [tables] tablesWF(a.node)
 //@   at call Start assert [callback_after_all_members_with_requested_mode] spawnSeq() == old(spawnSeq()) + len(a.spec.Group) && arg0 == caller_mode
 //@   ensures [gate_running] old(a.state) == 2 ==> result == gen.ErrApplicationRunning
 //@   ensures [gate_other] old(a.state) != 1 && old(a.state) != 2 ==> result == gen.ErrApplicationState
@@ -738,18 +745,55 @@ package node
 //@ func (l *log) SetLevel
 //@   trusted
 
+//@ spec func releasedSoFar(n *node, p *process) bool = !smHas(n.processes, any(p.pid)) && (abVal(p.registered) ==> !smHas(n.names, any(p.name))) && (forall j int :: 0 <= j && j < len(p.aliases) ==> !smHas(n.aliases, any(p.aliases[j])))
+//@ spec func unregWF(n *node, p *process) bool = p != nil && p.node == n && n.log != nil && p.log != nil && n.targetManager != nil && tablesWF(n) && applicationsWF(n) && ownEventsWF(p) && ownMetasWF(p)
+
 //@ func (n *node) unregisterProcess
 //@   props C06 C04 C17
 //@   mode int
-//@   requires [tables] p != nil && p.node == n && n.log != nil && p.log != nil && n.targetManager != nil && tablesWF(n) && applicationsWF(n) && ownEventsWF(p) && ownMetasWF(p)
+//@   requires [tables] unregWF(n, p)
 //@   at call RouteTerminatePID assert [pid_announced_gone_with_the_reason] target == p.pid && reason == caller_reason
 //@   at call RouteTerminateProcessID assert [name_announced_gone_with_the_reason] target.Name == p.name && target.Node == n.name && reason == caller_reason
 //@   at call RouteTerminateAlias assert [alias_announced_gone_with_the_reason] reason == caller_reason
 //@   at call terminate assert [member_termination_reported_to_its_application] pid == p.pid && reason == caller_reason
-//@   loop 1 invariant [idx] -1 <= rangeindex && rangeindex < len(p.aliases) && tablesWF(n) && applicationsWF(n) && ownEventsWF(p) && ownMetasWF(p)
+//@   loop 1 invariant [idx] -1 <= rangeindex && rangeindex < len(p.aliases) && unregWF(n, p)
 //@   loop 1 invariant [aliases_so_far] forall j int :: 0 <= j && j <= rangeindex ==> !smHas(n.aliases, any(p.aliases[j]))
 //@   loop 1 invariant [kept] !smHas(n.processes, any(p.pid)) && (abVal(p.registered) ==> !smHas(n.names, any(p.name))) && consumerCleaned(p.pid) == old(consumerCleaned(p.pid)) + 1
+//@   at range 1 invariant [wf1] unregWF(n, p)
+//@   at range 1 invariant [kept1] releasedSoFar(n, p) && consumerCleaned(p.pid) == old(consumerCleaned(p.pid)) + 1
+//@   at range 1 invariant [events_so_far] forall k any :: rseen(1, k) ==> !smHas(n.events, any(gen.Event{k.(gen.Atom), n.name}))
+//@   at range 2 invariant [wf2] unregWF(n, p)
+//@   at range 2 invariant [kept2] releasedSoFar(n, p) && consumerCleaned(p.pid) == old(consumerCleaned(p.pid)) + 1 && (forall k any :: smHas(p.events, k) ==> !smHas(n.events, any(gen.Event{k.(gen.Atom), n.name})))
+//@   at range 2 invariant [meta_aliases_so_far] forall k any :: rseen(2, k) ==> !smHas(n.aliases, any(smVal(p.metas, k).(*meta).id))
+//@   at range 2 invariant [wake_ups_only_grow] forall m *meta :: mwoken(m) >= old(mwoken(m))
+//@   at range 2 invariant [metas_woken_so_far] forall k any :: rseen(2, k) ==> mwoken(smVal(p.metas, k).(*meta)) > old(mwoken(smVal(p.metas, k).(*meta)))
 //@   ensures [gone_from_process_table] !smHas(n.processes, any(p.pid))
 //@   ensures [name_released] abVal(p.registered) ==> !smHas(n.names, any(p.name))
 //@   ensures [aliases_released] forall j int :: 0 <= j && j < len(p.aliases) ==> !smHas(n.aliases, any(p.aliases[j]))
+//@   ensures [events_released] forall k any :: smHas(p.events, k) ==> !smHas(n.events, any(gen.Event{k.(gen.Atom), n.name}))
+//@   ensures [metas_released_and_told_to_exit] forall k any :: smHas(p.metas, k) ==> !smHas(n.aliases, any(smVal(p.metas, k).(*meta).id)) && mwoken(smVal(p.metas, k).(*meta)) > old(mwoken(smVal(p.metas, k).(*meta)))
 //@   ensures [no_relation_left_as_requester] consumerCleaned(p.pid) == old(consumerCleaned(p.pid)) + 1
+
+// Node.ApplicationStart: dependencies first. depReady(name) is a definitional ghost: it is set for an
+// application exactly by a call of ApplicationStart(name) that returned nil or "already running".
+//@ ghostheap depReady(name gen.Atom) bool
+//@ ghostheap appStartAsked(a *application) int
+//@ func (n *node) EnvList
+//@   trusted
+//@ func (l *log) Level
+//@   trusted
+
+//@ spec func appStartWF(n *node) bool = n.log != nil && applicationsWF(n) && tablesWF(n) && (forall k any :: smHas(n.applications, k) ==> smVal(n.applications, k).(*application).node == n)
+//@ func (n *node) ApplicationStart
+//@   props C17
+//@   mode int
+//@   modifies depReady, appStartAsked, spawnSeq(), appStartCb, smHas(n.processes), smVal(n.processes), smHas(n.names), smVal(n.names), killAsked
+//@   requires [tables] appStartWF(n)
+//@   ensures [tables_kept] appStartWF(n)
+//@   ensures_ghost (result == nil || result == gen.ErrApplicationRunning) ==> depReady(name)
+//@   ensures_ghost forall x gen.Atom :: old(depReady(x)) ==> depReady(x)
+//@   loop 1 invariant [idx] -1 <= rangeindex && rangeindex < len(app.spec.Depends.Applications) && app != nil && appStartWF(n) && smHas(n.applications, any(name)) && app == smVal(n.applications, any(name)).(*application)
+//@   loop 1 invariant [dependencies_ready_so_far] forall j int :: 0 <= j && j <= rangeindex ==> depReady(app.spec.Depends.Applications[j])
+//@   at call start assert [dependencies_first] forall j int :: 0 <= j && j < len(a.spec.Depends.Applications) ==> depReady(a.spec.Depends.Applications[j])
+//@   at call start assert [the_loaded_application_in_its_spec_mode] smHas(n.applications, any(name)) && a == smVal(n.applications, any(name)).(*application) && mode == a.spec.Mode
+//@   ensures [unknown] !old(smHas(n.applications, any(name))) ==> result == gen.ErrApplicationUnknown
